@@ -233,6 +233,7 @@ type vWorld struct {
 	// set by vShimPrimary (sqlshim file): the plain handle of the primary and the outage switch
 	rawPrimary *sql.DB
 	outageHook func(on bool)
+	outageFast func(fast bool)
 }
 
 // vRawPrimary: the harness's own handle on the primary store (never subject to
